@@ -1,6 +1,7 @@
 """C20 — key and circle-of-fifths tables are algebraically consistent."""
 import pyimpl as P
 from protocol import KEYS
+import h9_util as U
 
 ID = "C20"
 LEAN_MODULE = "SCoda.Props.C20"
@@ -15,7 +16,10 @@ CLAUSES = [
 LEVEL = "proof"
 EXHAUSTIVE = True
 RULE = ("exhaustive: 15 keys x intervals -36..36 (transpose_key) and 128 x 128 pitch pairs (get_distance, from_distance); "
-        "every case is non-trivial (distinct arguments); the same sweep is judged directly by the oracle")
+        "every case is non-trivial (distinct arguments); the same sweep is judged directly by the oracle; then HISTORIES: short random sequences of public "
+        "calls that read the tables (key guesses with and without a leading key signature, get_distance / from_distance / get_position with references "
+        "that are no C, Sequence.transpose, Bar.transpose, get_info, transpose_key), after each of which the complete sweep is judged again with the "
+        "harness's own tables — the statement holds whatever was called before")
 ASSUMPTIONS = ["theorems are stated over Gen/Tables.lean and Gen/TheoryFns.lean, regenerated from music_theory.py on every run",
                "the AST translator (tools/gen_lean.py) is trusted to translate the subset it accepts; the exhaustive correspondence sweep cross-checks it"]
 MAJOR = [0, 2, 4, 5, 7, 9, 11]
@@ -76,8 +80,28 @@ def setup(ctx):
             fails.append(("cof-from", f"from_distance({a},{d})={f}, expected {b%12}"))
         return fails
 
+    def o_tables_after(inp):
+        """the statement of the property over its complete domains AFTER a history of public calls (seed round 9: a library function that sorts or
+        rotates one of the module-level tables in place leaves every later caller with wrong answers).  Every expectation comes from the harness's own
+        tables (h9_util: TONIC, MAJOR, COF_POS), also for the calls of the history itself.  Nothing is restored: when the tables are already
+        disturbed before the history starts (an earlier input did it, in this process: a new interpreter finds them intact), the input is judged in a fresh interpreter, so the verdict
+        belongs to the input and the replay file reproduces on its own."""
+        hist = inp.get("history")
+        if not isinstance(hist, list):
+            return [("~skip:no-history", "")]
+        if not U.IN_CHILD and U.table_failures(light=True) and U.fresh_ok("tables"):
+            return U.eval_fresh(ID, "tables_after", inp)
+        fails = []
+        for i, op in enumerate(hist):
+            for c, d in U.run_theory_op(op):
+                fails.append((c, f"call {i}: {d}"))
+        for c, d in U.table_failures():
+            fails.append(("after-history:" + c, d + f" — after {len(hist)} earlier public call(s)"))
+        return fails
+
     ctx.oracle("key", o_key)
     ctx.oracle("cof", o_cof)
+    ctx.oracle("tables_after", o_tables_after)
 
 
 def generate(ctx):
@@ -99,3 +123,18 @@ def generate(ctx):
         for d in range(-12, 13):
             ctx.corr("fromDistance", P.op_fromDistance(a, d))
     ctx.sample({"a": 60, "b": 67})
+    # histories LAST: the sweep above (and the answers recorded for the correspondence) are taken in an untouched process
+    rng = ctx.rng
+    for i in range(ctx.n(40, 200)):
+        hist = U.gen_theory_history(rng, 1, 6 if i % 4 else 12)
+        for k in U.describe_history(hist):
+            ctx.count("history-op:" + k)
+        if any(op["op"] == "guess" and op["lead"] is None for op in hist):
+            ctx.count("history:key-guess-without-leading-signature")
+        if any(op["op"] == "distance" and op["a"] % 12 != 0 for op in hist):
+            ctx.count("history:distance-from-a-reference-that-is-no-C")
+        ctx.case(("history", hist), True)
+        if ctx.check("tables_after", {"history": hist}):
+            ctx.count("history:stopped-after-the-first-failing-one")
+            break           # the process state is disturbed from here on: one failing history is reported (shrunk in fresh interpreters)
+    ctx.sample({"history": [{"op": "guess", "pitches": [62, 66, 69, 73], "lead": None}]})
